@@ -107,15 +107,57 @@ class Assembled:
 
 
 def _r2(fp, ed, asm, where):
-    """R2: diagnostics dropped: println!(..) -> (), &format!(..) -> "" """
+    """R2: diagnostics dropped: println!(fmt, a, b) -> { let _ = &(a); let _ = &(b); } ; &format!(fmt, a) -> { let _ = &(a); "" }.
+    The ARGUMENTS are still evaluated (an index, an unwrap or a `?` inside them stays under verification); only formatting / printing goes."""
     ct = fp.src.ct
+    def args_eval(o, c):
+        parts = split_args(fp.src, o, c)[1:]
+        out = []
+        for (a, b) in parts:
+            txt = fp.src.text[ct[a].start:ct[b - 1].end]
+            m = re.match(r"^\s*[A-Za-z_][A-Za-z0-9_]*\s*=(?!=)\s*(.*)$", txt, re.S)
+            if m:
+                txt = m.group(1)
+            out.append("let _ = &(%s);" % txt)
+        return " ".join(out)
     for (i, o, c) in fp.macro_calls("println"):
-        ed.replace(ct[i].start, ct[c].end, "()", "R2")
-        asm.rewrites.append(("R2 println! dropped", "%s:%d" % (where, fp.src.line(i))))
+        ed.replace(ct[i].start, ct[c].end, "{ " + args_eval(o, c) + " }", "R2")
+        asm.rewrites.append(("R2 println! dropped (arguments still evaluated)", "%s:%d" % (where, fp.src.line(i))))
     for (i, o, c) in fp.macro_calls("format"):
         if ct[i - 1].text == "&":
-            ed.replace(ct[i - 1].start, ct[c].end, '""', "R2")
-            asm.rewrites.append(("R2 &format!(..) message -> \"\"", "%s:%d" % (where, fp.src.line(i))))
+            ed.replace(ct[i - 1].start, ct[c].end, "{ " + args_eval(o, c) + ' "" }', "R2")
+            asm.rewrites.append(("R2 &format!(..) message -> \"\" (arguments still evaluated)", "%s:%d" % (where, fp.src.line(i))))
+
+
+def _bytes_literal(tok_text):
+    """b"..." -> list of byte values"""
+    body = tok_text[2:-1]
+    out = []
+    i = 0
+    while i < len(body):
+        c = body[i]
+        if c == "\\":
+            n = body[i + 1]
+            if n == "x":
+                out.append(int(body[i + 2:i + 4], 16)); i += 4; continue
+            m = {"0": 0, "n": 10, "r": 13, "t": 9, "\\": 92, '"': 34, "'": 39}
+            if n in m:
+                out.append(m[n]); i += 2; continue
+            raise LostAnchor("unsupported escape in byte string %r" % tok_text)
+        out.append(ord(c)); i += 1
+    return out
+
+
+def _r13(src, lo_tok, hi_tok, ed, asm, where):
+    """R13: Verus knows the length but not the content of byte-string literals: b"\\x00\\x01" is spelled (&[0x00u8, 0x01u8]) (same type &[u8; N], same bytes)"""
+    ct = src.ct
+    for j in range(lo_tok, hi_tok + 1):
+        t = ct[j]
+        if t.kind == "str" and t.text.startswith('b"'):
+            vals = _bytes_literal(t.text)
+            ed.replace(t.start, t.end, "(&[" + ", ".join("0x%02xu8" % v for v in vals) + "])", "R13")
+            asm.rewrites.append(("R13 byte-string literal spelled as a byte array", "%s:%d" % (where, src.line(j))))
+
 
 
 def _expand_macros(fp, ed, asm, names, where):
@@ -146,6 +188,59 @@ def _clause_block(kw, clauses):
     return "    %s\n" % kw + "".join("        %s,\n" % c.text for c in clauses)
 
 
+ANCHOR_BASE = {}   # unit name -> {qname: {"nlines": int, "hints": [[line, col0, col1]|None...], "claims": [...]}} loaded by the checker from baseline/<unit>.json
+ANCHOR_OUT = {}    # filled on every assembly: same structure for the current tree (written into the baseline on --rebaseline)
+
+
+def _relax(pat):
+    """whitespace-insensitive variant of an anchor regex: a literal blank matches any run of blanks (so re-formatting does not lose anchors)"""
+    return re.sub(r"(?<!\\) +", r"\\s*", pat)
+
+
+def _resolve_anchor(textA, body0, pat, nth, what, f, unit_name, kind, idx):
+    """returns (start, end, positional) offsets in textA of the anchor match.  When the text of the anchored line itself changed, the
+    position recorded in the committed baseline is mapped onto the current text through a line diff of the function (baseline lines vs
+    current lines): the anchor follows its line if that line was replaced in place (possibly by a few lines, e.g. with an added comment)."""
+    import difflib
+    seg = textA[body0:]
+    ms = [m for m in re.finditer(pat, seg)]
+    if len(ms) < nth:
+        ms = [m for m in re.finditer(_relax(pat), seg)]
+    cur_lines = [l.strip() for l in textA.split("\n")]
+    rec = ANCHOR_OUT.setdefault(unit_name, {}).setdefault(f.qname(), {"lines": cur_lines, "hints": {}, "claims": {}})
+    rec["lines"] = cur_lines
+    if len(ms) >= nth:
+        m = ms[nth - 1]
+        s0, e0 = body0 + m.start(), body0 + m.end()
+        l0 = textA.count("\n", 0, s0)
+        l1 = textA.count("\n", 0, max(s0, e0 - 1))
+        rec[kind][str(idx)] = [l0, l1]
+        return s0, e0, False
+    base = ANCHOR_BASE.get(unit_name, {}).get(f.qname())
+    if base and base.get("lines") and str(idx) in base.get(kind, {}):
+        b0, b1 = base[kind][str(idx)]
+        sm = difflib.SequenceMatcher(None, base["lines"], cur_lines, autojunk=False)
+        lo = hi = None
+        for tag, i1, i2, j1, j2 in sm.get_opcodes():
+            if tag == "equal":
+                if i1 <= b0 < i2: lo = j1 + (b0 - i1)
+                if i1 <= b1 < i2: hi = j1 + (b1 - i1)
+            elif tag == "replace" and (i2 - i1) <= 2 and (j2 - j1) <= 4:
+                # the anchored line was edited in place: the hint keeps its place relative to the replaced block
+                if i1 <= b0 < i2 and lo is None: lo = j1
+                if i1 <= b1 < i2 and hi is None: hi = j2 - 1
+        if lo is not None and hi is not None and lo <= hi:
+            lines_off = [0]
+            for mm in re.finditer("\n", textA):
+                lines_off.append(mm.end())
+            s0 = lines_off[lo]
+            e0 = (lines_off[hi + 1] - 1) if hi + 1 < len(lines_off) else len(textA)
+            if s0 >= body0:
+                rec[kind][str(idx)] = [lo, hi]
+                return s0, e0, True
+    raise LostAnchor("%s::%s: %s anchor /%s/ #%d not found" % (f.file, f.name, what, pat, nth))
+
+
 def process_fn(asm, f, unit):
     """returns list of (text, meta) chunks for one Fn / Stub"""
     src = Source.get(f.file)
@@ -159,6 +254,7 @@ def process_fn(asm, f, unit):
     edA = Edits(srctext[fn_start:fn_end], base=fn_start)
     if not f.stub:
         _r2(fpA, edA, asm, where)
+        _r13(src, fpA.i_brace, fpA.i_end, edA, asm, where)
         if f.expand:
             _expand_macros(fpA, edA, asm, f.expand, where)
         for (pat, rep) in f.body_sub:
@@ -283,43 +379,41 @@ def process_fn(asm, f, unit):
     # --- hints
     body0 = ct[fp.i_brace].start
     body_lines_off = []
-    for h in f.hints:
+    for k, h in enumerate(f.hints):
         pat, nth, text = h[0], h[1], h[2]
         where_ = h[3] if len(h) > 3 else "after"
-        seg = textA[body0:]
-        ms = [m for m in re.finditer(pat, seg)]
-        if len(ms) < nth:
-            raise LostAnchor("%s::%s: hint anchor /%s/ #%d not found" % (f.file, f.name, pat, nth))
-        m = ms[nth - 1]
+        s0, e0, positional = _resolve_anchor(textA, body0, pat, nth, "hint", f, unit.name, "hints", k)
+        if positional and where_ in ("at", "atend"):
+            raise LostAnchor("%s::%s: hint anchor /%s/ #%d not found (inline hint: no positional fallback)" % (f.file, f.name, pat, nth))
+        if positional:
+            asm.rewrites.append(("anchor of hint #%d re-placed by recorded line position (anchored line changed)" % k, "%s %s" % (f.file, f.name)))
         if where_ == "before":
-            at = textA.rfind("\n", 0, body0 + m.start()) + 1
+            at = textA.rfind("\n", 0, s0) + 1
             ed.insert(at, text.strip() + "\n", "hint")
         elif where_ == "at":
-            ed.insert(body0 + m.start(), text.strip() + " ", "hint")
+            ed.insert(s0, text.strip() + " ", "hint")
         elif where_ == "atend":
-            ed.insert(body0 + m.end(), " " + text.strip() + " ", "hint")
+            ed.insert(e0, " " + text.strip() + " ", "hint")
         else:
-            at = textA.find("\n", body0 + m.end())
+            at = textA.find("\n", e0)
             at = len(textA) if at < 0 else at + 1
             ed.insert(at, text.strip() + "\n", "hint")
     for k, c in enumerate(f.claims):
         pat, nth, text = c[0], c[1], c[2]
         where_ = c[3] if len(c) > 3 else "after"
-        seg = textA[body0:]
-        ms = [m for m in re.finditer(pat, seg)]
-        if len(ms) < nth:
-            raise LostAnchor("%s::%s: claim anchor /%s/ #%d not found" % (f.file, f.name, pat, nth))
-        m = ms[nth - 1]
+        s0, e0, positional = _resolve_anchor(textA, body0, pat, nth, "claim", f, unit.name, "claims", k)
+        if positional and where_ in ("at", "atend"):
+            raise LostAnchor("%s::%s: claim anchor /%s/ #%d not found (inline claim: no positional fallback)" % (f.file, f.name, pat, nth))
         tag = "claim:%d" % k
         if where_ == "before":
-            at = textA.rfind("\n", 0, body0 + m.start()) + 1
+            at = textA.rfind("\n", 0, s0) + 1
             ed.insert(at, text.strip() + "\n", tag)
         elif where_ == "at":
-            ed.insert(body0 + m.start(), text.strip() + " ", tag)
+            ed.insert(s0, text.strip() + " ", tag)
         elif where_ == "atend":
-            ed.insert(body0 + m.end(), " " + text.strip() + " ", tag)
+            ed.insert(e0, " " + text.strip() + " ", tag)
         else:
-            at = textA.find("\n", body0 + m.end())
+            at = textA.find("\n", e0)
             at = len(textA) if at < 0 else at + 1
             ed.insert(at, text.strip() + "\n", tag)
     textB, originB = ed.apply()
@@ -386,6 +480,13 @@ def process_item(asm, x):
         if text2 != text:
             asm.rewrites.append(("R7 derive(%s) dropped (contract generated from discriminants)" % d, "%s %s" % (x.file, x.name)))
         text = text2
+    # R13 on items (e.g. `const K: [u8; 4] = *b"Duca";`)
+    def _bl(m):
+        vals = _bytes_literal(m.group(0))
+        asm.rewrites.append(("R13 byte-string literal spelled as a byte array", "%s %s" % (x.file, x.name)))
+        return "(&[" + ", ".join("0x%02xu8" % v for v in vals) + "])"
+    if x.ikind in ("const", "static"):
+        text = re.sub(r'b"(?:[^"\\]|\\.)*"', _bl, text)
     for pat, rep in x.sub:
         text2 = re.sub(pat, rep, text)
         if text2 == text:
